@@ -48,7 +48,13 @@ impl Item {
             s.push('\n');
         }
         let kw = if self.is_enum { "enum" } else { "struct" };
-        s.push_str(&format!("{} {}{}", kw, self.name, self.generics));
+        // visibility is part of a derive input too; derived from the name so that it is stable
+        let vis = match self.name.len() % 3 {
+            0 => "pub ",
+            1 => "",
+            _ => "pub(crate) ",
+        };
+        s.push_str(&format!("{}{} {}{}", vis, kw, self.name, self.generics));
         let members = |s: &mut String, open: char, close: char| {
             s.push(' ');
             s.push(open);
